@@ -137,12 +137,13 @@ func blocksTrace(run *ev.Run, tier string) (int64, int64, int64) {
 	if bad >= 0 {
 		b := owner[bad]
 		e := all[bad]
-		from := bad - 8
-		if from < 0 {
-			from = 0
+		// the replay case is the whole trace of that builder up to the rejected event
+		from := bad
+		for from > 0 && all[from].Ev != "reset" {
+			from--
 		}
 		run.Fail(fmt.Sprintf("block-trace-rejected/%s/%s", e.Ev, strings.TrimPrefix(e.Kind, "*gogen.")),
-			fmt.Sprintf("an execution of the repository's own tests is not a behaviour of the frame discipline (BlockTrace.tla): event %d of builder %d: %+v", bad, b, e),
+			fmt.Sprintf("an execution of the repository's own tests is not a behaviour of the frame discipline (BlockTrace.tla): event %d of builder %d: %+v", bad-from, b, e),
 			map[string]any{"block_trace": all[from : bad+1]})
 	}
 	// binding guard: a corrupted copy of the trace must be rejected
